@@ -199,6 +199,23 @@ theorem crash_bytes_true (src : Nat → UInt8) (l m : Nat) (ops : List DOp) (hwf
     ∀ j b, bs[j]? = some b → b = src (off + j) :=
   reopen_bytes_true src _ (crashImage_true src l m ops hwf hsrc n k) verify off bs e hs
 
+/-- non-vacuity of the hypotheses of `script_ops_true` / `crash_bytes_true`: a script
+    that respects the protocol and appends the source's bytes satisfies both -/
+example : (Disk.init 32 0).wf [.setRunId "a", .newAofWriter 100, .aofAppend [7, 9], .aofAppend [9]] := by decide
+
+example : SrcOk (fun i => if i = 100 then 7 else 9) (Disk.init 32 0)
+    [.setRunId "a", .newAofWriter 100, .aofAppend [7, 9], .aofAppend [9]] := by
+  refine ⟨trivial, trivial, ?_, ?_, trivial⟩
+  · intro i b h
+    match i, h with
+    | 0, h => simp at h; subst h; decide
+    | 1, h => simp at h; subst h; decide
+    | n + 2, h => simp at h
+  · intro i b h
+    match i, h with
+    | 0, h => simp at h; subst h; decide
+    | n + 1, h => simp at h
+
 /-- **crc_mismatch_refused.** With verification on, a reader delivers nothing
     from a segment whose content fails the header check … -/
 theorem crc_mismatch_refused (fs : FS) (g : DSeg) (rest : List DSeg) (off : Nat) (file : Bytes)
